@@ -473,6 +473,8 @@ pub fn generate(family: &str, size: usize, seed: u64) -> Vec<String> {
         "w_fa" => writer_cases("fa", &mut rng, if size >= 100000 { 8 } else { 6 }, size, &mut out),
         "w_fq" => writer_cases("fq", &mut rng, 0, size, &mut out),
         "par_x" => par_x(&mut rng, size, &mut out),
+        "fa_path" => path_cases("fa", &mut rng, size, &mut out),
+        "fq_path" => path_cases("fq", &mut rng, size, &mut out),
         "fa_zero" => zero_read_cases("fa", &mut rng, size, &mut out),
         "fq_zero" => zero_read_cases("fq", &mut rng, size, &mut out),
         "par_z" => par_z(&mut rng, size, &mut out),
@@ -1064,6 +1066,23 @@ pub fn par_z(rng: &mut Rng, size: usize, out: &mut Vec<String>) {
 }
 
 // ---------------------------------------------------------------- sources that report Ok(0) and later deliver data (C20 fusedness)
+
+/// `P` cases: the readers constructed from a file path (default and explicit capacity)
+pub fn path_cases(fmt: &str, rng: &mut Rng, n: usize, out: &mut Vec<String>) {
+    for _ in 0..n {
+        let input = rand_input(fmt, rng, 20);
+        let mut ops = vec![];
+        for _ in 0..rng.range(3, 14) {
+            ops.push(if rng.chance(1, 4) { Op::Owned } else { Op::Next });
+            if rng.chance(1, 2) {
+                ops.push(Op::Pos);
+            }
+        }
+        let cap = if rng.chance(1, 2) { 65536 } else { rand_cap(rng, input.len()) };
+        let c = Case { kind: "P".to_string(), fmt: fmt.to_string(), cap, pol: PolDesc::Std, chunk: 0, script: vec![], seek_fails: vec![], ops, input };
+        out.push(c.show());
+    }
+}
 
 pub fn zero_read_cases(fmt: &str, rng: &mut Rng, n: usize, out: &mut Vec<String>) {
     for _ in 0..n {
